@@ -10,6 +10,8 @@ THEOREMS = ["C30_build_total",
             "C30_trivia_partition", "C30_trivia_partition_refuted", "C30_trivia_partition_partial",
             "C30_emit_roundtrip_id", "C30_emit_roundtrip_id_refuted", "C30_emit_roundtrip_id_partial",
             "C30_print_file_roundtrip", "C30_print_file_roundtrip_refuted", "C30_print_file_roundtrip_partial",
+            "C30_print_file_roundtrip_eof_only", "C30_emit_roundtrip_id_eof_only", "C30_trivia_partition_eof_only",
+            "C30_eof_only_refuted",
             "C30_per_decl_concat", "C30_per_decl_concat_refuted"]
 AXIOMS_OK = []
 TRUSTED = ["hand-written Gallina model of trivia.go (buildTriviaIndex, walkScope, walkDecl, walkFused, splitDetached) and of the "
@@ -171,7 +173,8 @@ def classify(src, o, what):
             if rt[:lse] == src[:lse]:
                 # the output differs from the source ONLY at the end of the file
                 return prnlib.eof_features(src, o["tree"]) or {"roundtrip-mismatch-at-end-of-file:unexplained"}
-            if not rt.endswith(src[lse:]):
+            # (when the parser left the last tokens out of the AST their trailing trivia goes with them)
+            if not rt.endswith(src[lse:]) and not extra.get("stray_literals"):
                 F |= prnlib.eof_features(src, o["tree"]) or {"roundtrip-mismatch-at-end-of-file:unexplained"}
         else:
             F |= prnlib.eof_features(src, o["tree"])
